@@ -222,6 +222,24 @@ func TestC16(t *testing.T) {
 			return avoidC09Regions(c)
 		})
 	}
+	// Dot/TensorMul of row-major operands into a column-major reuse tensor (column-major OPERANDS are finding F28)
+	for _, op := range []string{"Dot", "MatMul", "MatVecMul"} {
+		op := op
+		cell(t, "C16", "C09.linalg", "linalg/"+op+"/reuse-cm", nCases(40, 1000), func(rt *rapid.T) Case {
+			d := rapid.SampledFrom(floatDTs).Draw(rt, "dt")
+			c := genC09(rt, op, d, "reuse", []string{"contig"})
+			if c.Dst != nil {
+				c.Dst.L = Layout{Root: "cmraw"}
+				c.DstT = false
+				if len(c.A.Shape) == 0 || (c.B != nil && len(c.B.Shape) == 0) || prod(c.A.Shape) == 1 || (c.B != nil && prod(c.B.Shape) == 1) {
+					// Dot with a scalar operand is the elementwise Mul with a reuse tensor of the other order: finding F18
+					rec.Class("excluded:F18")
+					c.Dst.L = Layout{Root: "rm"}
+				}
+			}
+			return avoidC09Regions(c)
+		})
+	}
 	// ---- assembling (C10)
 	// Stack and Repeat with column-major operands lie entirely in the region of finding F50
 	for _, op := range []string{"Concat", "Hstack", "Vstack"} {
